@@ -163,11 +163,13 @@ func (p c02KeyPred) sql(cfg *c02Config) (string, bool) {
 
 // c02KeyClass is the canonical class of a key-predicate case.
 type c02KeyClass struct {
-	fam, op, comb, lo, hi string
+	fam, op, comb, lo, hi, on string
 }
 
+var c02KeyBaseNames = []string{"", "ON_COUNT", "ON_JOIN_ORDER"}
+
 func (p c02KeyPred) class(fam string) c02KeyClass {
-	c := c02KeyClass{fam: fam, op: p.Op, comb: p.Comb, lo: p.Lo.posClass(), hi: "ROW"}
+	c := c02KeyClass{fam: fam, op: p.Op, comb: p.Comb, lo: p.Lo.posClass(), hi: "ROW", on: c02KeyBaseNames[p.Base%c02KeyBases]}
 	switch p.Op {
 	case "BETWEEN", "NOT_BETWEEN":
 		c.hi = p.Hi.posClass()
@@ -205,6 +207,9 @@ func (c c02KeyClass) sig(clause string) string {
 	if c.hi != "ROW" {
 		parts = append(parts, "HI_"+c.hi)
 	}
+	if c.on != "" {
+		parts = append(parts, c.on)
+	}
 	if c.fam != "" {
 		parts = append(parts, c.fam)
 	}
@@ -230,6 +235,11 @@ func (c c02KeyClass) reductions() []c02KeyClass {
 		if c.lo == "REVERSED" {
 			r.hi = "ROW"
 		}
+		out = append(out, r)
+	}
+	if c.on != "" {
+		r := c
+		r.on = ""
 		out = append(out, r)
 	}
 	if c.fam != "" {
@@ -320,13 +330,13 @@ type c02KeyFail struct {
 }
 
 type c02KeyGrid struct {
-	fails map[c02KeyClass]c02KeyFail // classes that fail on the fixed grid (first witness)
+	fails map[c02KeyClass]map[string]c02KeyFail // classes that fail on the fixed grid: clause -> first witness
 	seen  map[c02KeyClass]bool
 }
 
 // c02RunKeyGrid evaluates the whole grid on DK for both layouts of every rule family.
 func c02RunKeyGrid(rec *kit.Rec, suite *c02Suite, parsers []*parser.Parser) (*c02KeyGrid, error) {
-	g := &c02KeyGrid{fails: map[c02KeyClass]c02KeyFail{}, seen: map[c02KeyClass]bool{}}
+	g := &c02KeyGrid{fails: map[c02KeyClass]map[string]c02KeyFail{}, seen: map[c02KeyClass]bool{}}
 	preds := c02KeyGridPreds()
 	type job struct {
 		w    *c02World
@@ -372,8 +382,11 @@ func c02RunKeyGrid(rec *kit.Rec, suite *c02Suite, parsers []*parser.Parser) (*c0
 			rec.Nontrivial("key:" + cl.sig(""))
 		}
 		if o.status == "fail" {
-			if _, ok := g.fails[cl]; !ok {
-				g.fails[cl] = c02KeyFail{clause: o.clause, what: fmt.Sprintf("%s on %s/DK: %s", j.sql, j.w.cfg.spec, o.detail),
+			if g.fails[cl] == nil {
+				g.fails[cl] = map[string]c02KeyFail{}
+			}
+			if _, ok := g.fails[cl][o.clause]; !ok {
+				g.fails[cl][o.clause] = c02KeyFail{clause: o.clause, what: fmt.Sprintf("%s on %s/DK: %s", j.sql, j.w.cfg.spec, o.detail),
 					cse: c02KeyCase{Cfg: j.w.cfg.spec, Data: j.w.data, Pred: j.pred, SQL: j.sql, Sent: o.sent}}
 			}
 		}
@@ -430,9 +443,20 @@ func (g *c02KeyGrid) minimalFrom(c c02KeyClass) []c02KeyClass {
 	return out
 }
 
-func (g *c02KeyGrid) report(rec *kit.Rec, c c02KeyClass) {
-	f := g.fails[c]
-	rec.Violation(c.sig(f.clause), f.what, f.cse)
+// report records a 1-minimal failing class, once per failing oracle clause (only the given
+// clause when one is named).
+func (g *c02KeyGrid) report(rec *kit.Rec, c c02KeyClass, only string) {
+	var clauses []string
+	for cl := range g.fails[c] {
+		clauses = append(clauses, cl)
+	}
+	sort.Strings(clauses)
+	for _, cl := range clauses {
+		if only == "" || only == cl {
+			f := g.fails[c][cl]
+			rec.Violation(c.sig(cl), f.what, f.cse)
+		}
+	}
 }
 
 // reportAll reports every 1-minimal failing class of the grid.
@@ -447,7 +471,7 @@ func (g *c02KeyGrid) reportAll(rec *kit.Rec) {
 		for _, m := range g.minimalFrom(c) {
 			if !done[m] {
 				done[m] = true
-				g.report(rec, m)
+				g.report(rec, m, "")
 			}
 		}
 	}
